@@ -23,6 +23,12 @@ def cases(res):
     add(17, {"enable_overlays": 1, "tf_level": 1, "hierarchical_levels": 3})
     add(12, {"tile_columns": 1, "tile_rows": 1}, w=256, h=128)
     add(10, {"tile_columns": 2}, w=320, h=64)
+    # tile layouts whose tile count is not a power of two (uniform spacing over 5 superblock columns / 3 rows): the size fields INSIDE the
+    # tile group (every tile but the last) can only be validated by decoding -> these cases are also given to the independent decoder
+    for sets, w, h in (({"tile_columns": 2}, 320, 128), ({"tile_columns": 2, "tile_rows": 1}, 320, 128), ({"tile_rows": 2, "tile_columns": 1}, 256, 192),
+                       ({"tile_columns": 1}, 256, 64)):
+        add(8, dict(sets, recon_enabled=1, enable_tpl_la=0), w=w, h=h)
+        out[-1]["decode"] = True
     add(12, {}, bits=10, w=96, h=80)
     add(12, {"film_grain_denoise_strength": 8}, args=["--content", "noise"], w=128, h=64)
     add(12, {"screen_content_mode": 1}, args=["--content", "screen"], w=128, h=128)
@@ -65,8 +71,22 @@ def run(res):
         if not r["ok"]:
             res.violation("Packetize model (%s) violates %s" % (cfg, r["violated"]), r["out"][-6000:])
     cs = cases(res)
-    rs = corpus.run_cases(cs, timeout=90)
+    rs = corpus.run_cases([c for c in cs if not c.get("decode")], timeout=90)
+    rsd = corpus.run_cases([c for c in cs if c.get("decode")], want_dec=["--aom"], timeout=90)
     b = corpus.Bundle()
+    # "syntactically valid OBUs whose size fields match their payloads", for the fields the container-level walk cannot see: the independent
+    # decoder must consume every packet without error, output one picture per packet, and reproduce the encoder's reconstruction
+    for r in rsd:
+        if r["rc"] != 0 or not r.get("dec"):
+            continue
+        for e in r["dec"]["events"]:
+            if e["ev"] in ("DecError", "Timeout"):
+                res.violation("independent decoder rejects a packet: %s (%s)" % (e.get("msg", e.get("phase")), r["desc"]), "", key={"kind": "decode"})
+        nd = len([e for e in r["dec"]["events"] if e["ev"] == "Dec"])
+        if nd != r["case"]["n"]:
+            res.violation("independent decoder output %d pictures for %d packets: %s" % (nd, r["case"]["n"], r["desc"]), "", key={"kind": "decode_count"})
+        b.add("Observe", stream.observe_events(r["desc"], r, r["dec"], packets=False, recon=True), r["desc"])
+    rs = rs + rsd
     npk = 0
     for r in rs:
         res.case(r["desc"])
@@ -93,6 +113,7 @@ def run(res):
     res.add("packets_parsed", npk)
     res.sample({"bitstream_trace_prefix": b.recs.get("Bitstream", [])[:9]})
     b.validate(res, "Bitstream", "C02 temporal-unit grammar")
+    b.validate(res, "Observe", "C02 tile-group payloads decode to the encoder's reconstruction", key_fn=lambda rej: {"kind": "decode_mismatch"})
     # binding self-test: corrupted packets must be rejected
     selftest(res, rs)
     corpus.cleanup(rs)
